@@ -220,12 +220,17 @@ func (m *Meta) Equals(other *Meta) bool {
 }
 
 func (m *Meta) String() string {
-	sort.Strings(m.Keys)
+	// sort a copy: printing is a read-only operation and must not reorder the
+	// Keys (insertion order) shared by every reader of the Meta
+	keys := make([]string, len(m.Keys))
+	copy(keys, m.Keys)
+	sort.Strings(keys)
 
 	buf := strings.Builder{}
 	buf.WriteString("{")
 
-	for key, node := range m.Values {
+	for _, key := range keys {
+		node := m.Values[key]
 		buf.WriteString("\n\t")
 		buf.WriteString(key)
 		buf.WriteString(": ")
